@@ -643,7 +643,7 @@ def part_sim(params, tier, acc):
                   graph["v"].items()}
             if any(n == 0 for n in graph["v"].values()):
                 continue
-            va = {v: "x.aplx" for v in graph["v"]}
+            va = {v: "x.aplx" for v in graph["v"] if graph["v"][v]}
             nets, net_keys = build_problem(graph, "full")
             case = dict(part="sim", dead=[list(d) for d in dead], graph=gi)
             acc.evaluations += 1
@@ -658,6 +658,8 @@ def part_sim(params, tier, acc):
             for v, res in al.items():
                 sl = res.get(Cores)
                 chip = tuple(pl[v])
+                if sl is None:
+                    continue        # a vertex that needs no cores
                 for c in range(sl.start, sl.stop):
                     if sim.chips[chip].core_state[c] != 15:
                         acc.violation(dict(kind="busy_core_allocated"), case,
